@@ -192,6 +192,9 @@ func (g *c03Gen) keyVal() interface{} {
 		return int64(10)
 	case 0:
 		return "k" + strconv.Itoa(g.r.Intn(4))
+	case 1, 2, 3:
+		// keys that collide with scalar elements: a scalar and an object keyed by it share a reorder key
+		return []interface{}{int64(1), int64(2), int64(3), "a", "b", int64(-1)}[g.r.Intn(6)]
 	default:
 		return int64(10 + g.r.Intn(6))
 	}
@@ -229,9 +232,15 @@ func (g *c03Gen) object(depth int, keyed bool) map[string]interface{} {
 func (g *c03Gen) array(depth int) []interface{} {
 	n := g.r.Intn(7)
 	a := make([]interface{}, 0, n)
-	kind := g.r.Intn(5)
+	kind := g.r.Intn(6)
 	for i := 0; i < n; i++ {
 		switch kind {
+		case 5: // keyed objects mixed with scalars (possibly equal to a key)
+			if g.r.Bool() {
+				a = append(a, g.object(depth, true))
+			} else {
+				a = append(a, g.scalar())
+			}
 		case 0: // scalars, duplicates likely
 			a = append(a, g.scalar())
 		case 1: // keyed objects
@@ -681,6 +690,7 @@ func c03Corpus() []c03Case {
 		{a(i(7), i(-1)), a(i(-1), i(7))},                                                 // merge.ts: merged[x] === -1
 		{a(o("__key", i(10), "a", "bob"), o("__key", i(13), "a", "alice")), a(o("__key", i(13), "a", "alice"), o("__key", i(10), "a", "bob", "b", i(23)))},
 		{o("a", []byte{1, 2}), o("a", []byte{1, 3})},
+		{a(o("__key", "a", "b", i(1)), o("__key", "b", "b", i(2))), a(o("__key", "a", "b", i(1)), "b")}, // scalar equal to the key of the object it replaces
 		{o("__key", nil, "a", i(1)), o("a", i(1))}, // nil __key disappears
 		{o("a", i(1)), o("__key", nil, "a", i(1))}, // nil __key appears
 	}
